@@ -497,6 +497,51 @@ func intFloatCompare(x *big.Int, f float64) {
 	}
 }
 
+// compareNeighbourhoods: for each band 2^b <= |n| < 2^(b+1), b = 31..52 (where n +- a
+// fraction is representable), both signs: n against n -+ 0.5, n -+ 0.25, the adjacent
+// floats in both directions and n itself as a float.  For b >= 53: the float nearest
+// to n, its two neighbours, and the ints equal / adjacent to each of those floats.
+func compareNeighbourhoods(rd *hx.Rand) {
+	one := big.NewInt(1)
+	for b := uint(31); b <= 52; b++ {
+		lo := pow2(b)
+		for _, n := range []*big.Int{lo, add(lo, 1), new(big.Int).Add(lo, new(big.Int).Rsh(new(big.Int).SetUint64(rd.Uint64()), 64-b)), add(pow2(b+1), -1)} {
+			for _, x := range []*big.Int{n, neg(n)} {
+				f := float64(x.Int64()) // exact: |x| < 2^53
+				fs := []float64{f, f - 0.5, f + 0.5, math.Nextafter(f, math.Inf(-1)), math.Nextafter(f, math.Inf(1))}
+				if b <= 50 {
+					fs = append(fs, f-0.25, f+0.25)
+				}
+				for _, g := range fs {
+					intFloatCompare(x, g)
+				}
+			}
+		}
+	}
+	for _, b := range []uint{53, 54, 55, 62, 63, 64, 65, 80, 100, 128, 199, 1000, 1022} {
+		for k := 0; k < 2; k++ {
+			n := new(big.Int).Abs(randInt(rd, 200))
+			if k == 0 {
+				n = add(pow2(b), int64(rd.Intn(5)-2))
+			} else {
+				n.Mod(n, pow2(b)).Add(n, pow2(b))
+			}
+			for _, x := range []*big.Int{n, neg(n)} {
+				f, ok := intToFloat(x)
+				if !ok {
+					continue
+				}
+				for _, g := range []float64{f, math.Nextafter(f, math.Inf(-1)), math.Nextafter(f, math.Inf(1))} {
+					gi := floatTrunc(g) // g is integral here
+					for _, y := range []*big.Int{x, gi, new(big.Int).Sub(gi, one), new(big.Int).Add(gi, one)} {
+						intFloatCompare(y, g)
+					}
+				}
+			}
+		}
+	}
+}
+
 func flOp(op string, a, b float64) string {
 	switch op {
 	case "+":
@@ -1110,6 +1155,10 @@ func main() {
 			mixedArith(x, f)
 		}
 	}
+	// int/float comparison class: an int n of every magnitude band outside int32 against
+	// the floats just around it, in both operand orders and all six operators
+	compareNeighbourhoods(rd)
+
 	// the float overflow boundary: the largest finite float is 2^1024 - 2^971; ints from
 	// 2^1024 - 2^970 on round to an infinity and must be rejected by conversions
 	maxFloat := new(big.Int).Sub(pow2(1024), pow2(971))
